@@ -30,3 +30,13 @@ Definition check_resistance_src (c : list (option (list string)) * option string
   | Err XRuntimeError, None => true
   | _, _ => false
   end.
+
+(* SrcEquivTranscribe.re_read (the model of how re reads the compiled text) against the parse tree
+   CPython's own re parser builds for the same text *)
+From MV Require SrcEquivTranscribe.
+Definition check_re_read (c : string * pattern) : bool :=
+  let '(text, p) := c in
+  match SrcEquivTranscribe.re_read (sch_of_string text) with
+  | Some q => pattern_eqb p q
+  | None => false
+  end.
